@@ -91,6 +91,11 @@ impl ModuleCacheEntry {
         new_common: ModuleCommonInfo,
         new_parsed: ParsedModuleInfo,
     ) {
+        // The typed module was checked against the previous source text: if the text changed it
+        // must not be reused, whatever the (LSP) file versions say or do not say about this module.
+        if self.common.hash != new_common.hash {
+            self.typed = None;
+        }
         self.common = new_common;
         self.parsed = new_parsed;
     }
